@@ -155,8 +155,27 @@ func main() {
 			rep.Swept = len(extra)
 			fns = p.sortedContracts()
 		}
+		// a generic function is verified once per instantiation reachable in the program (concrete types);
+		// the contract stays attached to the generic origin
+		var expanded []*ssa.Function
+		instOf := map[*ssa.Function]*ssa.Function{}
 		for _, fn := range fns {
+			if fn.TypeParams().Len() > 0 && len(p.insts[fn]) > 0 {
+				is := append([]*ssa.Function(nil), p.insts[fn]...)
+				sort.Slice(is, func(i, j int) bool { return is[i].String() < is[j].String() })
+				for _, in := range is {
+					instOf[in] = fn
+					expanded = append(expanded, in)
+				}
+				continue
+			}
+			expanded = append(expanded, fn)
+		}
+		for _, fn := range expanded {
 			fc := p.contracts[fn]
+			if o := instOf[fn]; o != nil {
+				fc = p.contracts[o]
+			}
 			if *prop != "" && !contains(fc.Props, *prop) {
 				continue
 			}
